@@ -63,6 +63,8 @@ func cmdAux(args []string) {
 		auxPlan(r, *seed, *n, emit, stats)
 	case "rwset":
 		auxRwset(emit, stats)
+	case "keys":
+		auxKeys(r, *n, emit, stats)
 	case "norm":
 		auxNorm(r, *n, emit, stats)
 	case "docpath":
@@ -928,7 +930,7 @@ func auxRwset(emit func(E), stats map[string]int) {
 						seenR, seenW := map[string]bool{}, map[string]bool{}
 						in.keylog = func(kind string, key []byte) {
 							k := absKey(key)
-							if k == nil {
+							if k == nil || kind == "seek" {
 								return
 							}
 							ks := fmt.Sprint(k)
@@ -981,5 +983,97 @@ func auxRwset(emit func(E), stats map[string]int) {
 				}
 			}
 		}
+	}
+}
+
+
+// ---------------------------------------------------------------- key layout (CloverKV)
+
+var kvFieldPool = []string{"x", "xy", "n.a", "n", "d:", "i:x", "t:1", "v:", "c:a", "coll:", "\xc3\xa9", "a b", "d", "i", "_id"}
+
+// auxKeys records, for one collection name, field name, id and value, every key the real code sets,
+// deletes, reads and seeks while the collection, a document and an index are created, used and
+// dropped; CloverKV says which keys those must be.
+func auxKeys(r *rand.Rand, n int, emit func(E), stats map[string]int) {
+	u := NewUniverse("general", "general")
+	dir, _ := os.MkdirTemp(scratchBase(), "verif-kv-")
+	defer os.RemoveAll(dir)
+	alpha := "cdi:tv .-l"
+	ids := append(append([]string{}, uuidPool...), altUuidPool...)
+	vals := scanValues(u)
+	for i := 0; i < n; i++ {
+		name := namePool[r.Intn(len(namePool))]
+		if r.Intn(2) == 0 {
+			b := make([]byte, r.Intn(6))
+			for j := range b {
+				b[j] = alpha[r.Intn(len(alpha))]
+			}
+			name = string(b)
+		}
+		field := kvFieldPool[r.Intn(len(kvFieldPool))]
+		id := ids[r.Intn(len(ids))]
+		val := vals[r.Intn(len(vals))]
+		if field == "_id" {
+			val = AStr(id)
+		}
+		gv := u.Gamma(val)
+		in := &injector{}
+		b, err := NewBackend([]string{"badgermem", "bolt"}[i%2], dir, func(s store.Store) store.Store { return &wStore{inner: s, in: in} })
+		if err != nil {
+			panic(err)
+		}
+		var cur E
+		bytesList := func(m map[string]bool) []interface{} {
+			out := make([]interface{}, 0, len(m))
+			keys := make([]string, 0, len(m))
+			for k := range m {
+				keys = append(keys, k)
+			}
+			sortStrings(keys)
+			for _, k := range keys {
+				out = append(out, B(k))
+			}
+			return out
+		}
+		phases := make([]interface{}, 0)
+		phase := func(ph string, fn func() error) {
+			acc := map[string]map[string]bool{"set": {}, "delete": {}, "get": {}, "seek": {}, "item": {}}
+			in.keylog = func(kind string, key []byte) { acc[kind][string(key)] = true }
+			st := "ok"
+			ok, msg := safely(func() {
+				if err := fn(); err != nil {
+					st = "err"
+				}
+			})
+			in.keylog = nil
+			if !ok {
+				st = "panic:" + msg
+			}
+			cur = E{"ph": ph, "st": st, "sets": bytesList(acc["set"]), "dels": bytesList(acc["delete"]), "gets": bytesList(acc["get"]),
+				"seeks": bytesList(acc["seek"]), "items": bytesList(acc["item"])}
+			phases = append(phases, cur)
+			stats["keys/"+ph+"/"+st]++
+		}
+		db := b.db
+		doc := document.NewDocument()
+		doc.Set("_id", id)
+		if field != "_id" {
+			doc.Set(field, gv)
+		}
+		phase("create", func() error { return db.CreateCollection(name) })
+		phase("insert", func() error { return db.Insert(name, doc) })
+		phase("createindex", func() error { return db.CreateIndex(name, field) })
+		phase("scan", func() error { _, err := db.FindAll(query.NewQuery(name)); return err })
+		phase("indexscan", func() error {
+			_, err := db.FindAll(query.NewQuery(name).Where(query.Field(field).Eq(gv)))
+			return err
+		})
+		phase("list", func() error { _, err := db.ListCollections(); return err })
+		phase("dropindex", func() error { return db.DropIndex(name, field) })
+		phase("createindex", func() error { return db.CreateIndex(name, field) })
+		phase("dropcollection", func() error { return db.DropCollection(name) })
+		entry, _ := indexKey(name, field, doc.Get(field), id)
+		emit(E{"kind": "keys", "name": B(name), "field": B(field), "id": B(id), "entry": B(string(entry)), "be": b.Name, "phases": phases})
+		b.Destroy()
 	}
 }
